@@ -454,6 +454,8 @@ class BinnedTrees(Iterable[AngularTree]):
             new._patch = patch
             new.binning = binning
 
+            # invalidate the cache first: the binning file marks the trees as valid
+            new.binning_file.unlink(missing_ok=True)
             with new.trees_file.open(mode="wb") as f:
                 trees = build_trees(patch, binning, leafsize=leafsize)
                 pickle.dump(trees, f)
